@@ -6,12 +6,15 @@ Correspondence (every case calls the real code from the overlay build of the wor
   optimize_core         run : the kernel model in Float32 on the very arrays the kernel receives (bit patterns);
                               labels and the float32 `increase` compared exactly
   optimize_refine_core  run : the same for the Leiden refinement, the values of libc rand() being the oracle
+                              (stream of the seed the kernel receives)
   Louvain.fit/Leiden.fit run: on inputs where float32 arithmetic is exact (total weight a power of two ...)
                               the whole fit (pre-processing, kernels, aggregation, stopping rules) in Q; labels and
                               logged increases compared exactly
                         spec: on every input: objective of the kind (documented formula on the input matrix, in Q)
                               >= singletons - EPS32, = singletons + sum of logged increases within EPS32,
                               no cluster across two connected components
+Every implementation call runs in a forked worker under an alarm: a call that hangs or crashes is the answer
+`hang` / `crash N`, compared with the model's like any other answer (after MAX_HANGS the rest is not run).
 """
 import ctypes
 import json
@@ -42,7 +45,9 @@ RULE = ('get_modularity: all digraphs n<=3 (loops, sampled weights) x all labeli
         '(undirected/directed, self loops, float weights, unsorted rows) x kinds x resolutions x tolerances x '
         'initial partitions; fits: all undirected graphs n<=4 and structured graphs n<=16 with total weight forced '
         'to a power of two (exact run lines) and arbitrary weights (spec lines) x {dugue,newman,potts} x '
-        'resolutions x tolerances x {square, bipartite, force_bipartite}. Non-trivial: the metric case has a '
+        'resolutions x tolerances (no zero tolerance where float32 is inexact) x {square, bipartite, '
+        'force_bipartite}, plus a degenerate stream (one edge, isolated node, two components, empty, unknown kind, '
+        'stored zeros); corpus/C06.jsonl first. Non-trivial: the metric case has a '
         'cluster with two nodes and a stored entry; the kernel / fit case moves at least one node. '
         'distinct = distinct (entry point, input, options)')
 ASSUMPTIONS = ['scipy sparse products / `+=` / bmat / np.unique are the substrate (monitored through the outputs)',
@@ -83,14 +88,6 @@ def _csr_desc(a):
             'indices': [int(x) for x in a.indices], 'data': [float(x) for x in a.data]}
 
 
-def _call(f):
-    try:
-        with np.errstate(all='ignore'):
-            return f()
-    except ValueError:
-        return 'err ValueError'
-
-
 def _rands(seed, k=N_RANDS):
     _libc.srand(seed)
     out = [_libc.rand() for _ in range(k)]
@@ -99,7 +96,8 @@ def _rands(seed, k=N_RANDS):
 
 
 def _plain_rand(ctx):
-    """The refinement draws from libc rand() and nothing in the clustering package re-seeds it."""
+    """The refinement kernel still draws from libc rand() and Leiden still reaches it through the module-level name
+    the harness wraps (otherwise the Leiden run lines are replaced by spec lines and a note is written)."""
     root = os.path.join(ctx.overlay_root, 'sknetwork', 'clustering') if getattr(ctx, 'overlay_root', None) else None
     if root is None:
         return True
